@@ -474,6 +474,79 @@ def _d8(chk, fb):
     chk.floor("D8", "relation insertions with a discarded result", n_sites, 2)
 
 
+def _d9(chk, fb):
+    """off-by-one guards: an index tested with '<= size()' (or 'size() >= index') and then used with at()/operator[] on that
+    container.  The guard admits index == size(), which is one past the last element"""
+    import re
+    n = 0
+    for f in sorted(fb.concrete_fns(), key=lambda x: x.key):
+        if f.body is None or f.cfg is None or "Bpp/Graph/" not in f.relfile:
+            continue
+        cfg = f.cfg
+        for c in f.calls():
+            if c["callee"]["name"] not in ("at", "operator[]") or "obj" not in c or not f.args(c):
+                continue
+            if "vector" not in c["callee"].get("cls", "") and "deque" not in c["callee"].get("cls", ""):
+                continue
+            X, I = render(f.obj(c)), render(f.args(c)[0])
+            sz = "%s.size()" % X
+            weak = {"(%s <= %s)" % (I, sz): True, "(%s >= %s)" % (sz, I): True, "(%s > %s)" % (I, sz): False, "(%s < %s)" % (sz, I): False}
+            strong = {"(%s < %s)" % (I, sz): True, "(%s > %s)" % (sz, I): True, "(%s >= %s)" % (I, sz): False, "(%s <= %s)" % (sz, I): False}
+            b = cfg.stmt_block(c)
+            has_strong, _ = e1.guarded_by(cfg, b, lambda facts: any(strong.get(t) is tr for t, tr, _ in facts if t in strong))
+            if has_strong:
+                n += 1
+                chk.proved("D9", f.key, "index-below-size:%s[%s]" % (X[:30], I[:30]), f.loc(c), "dominated by a strict test of %s against %s" % (I, sz))
+                continue
+            has_weak, _ = e1.guarded_by(cfg, b, lambda facts: any(weak.get(t) is tr for t, tr, _ in facts if t in weak))
+            if has_weak:
+                n += 1
+                chk.refuted("D9", f.key, "index-below-size:%s[%s]" % (X[:30], I[:30]), f.loc(c),
+                            "'%s' is only guarded by a test that admits %s == %s: that index is one past the last element (at() raises std::out_of_range, operator[] reads out of bounds)" % (render(c)[:60], I, sz),
+                            witness={"input": "an id equal to the current size of the table (the first item created after the table was sized)"})
+    chk.floor("D9", "size-guarded element accesses in the graph headers", n, 4)
+
+
+def _d10(chk, fb):
+    """the neighbour iterators of GlobalGraph come in eight spellings per direction (nodes / edges, const / non-const class,
+    const / non-const graph argument); all spellings of one direction must walk the same relation map of the node, and the two
+    directions different ones.  The odd one out is refuted (sibling agreement, majority of at least three)"""
+    import re
+    groups = {}
+    for f in fb.concrete_fns():
+        m = re.match(r"^bpp::(Nodes|Edges)IteratorClass<bpp::Graph::(OUTGOING|INCOMING)NEIGHBORITER, (true|false)>$", f.cls or "")
+        if not m or not f.rec.get("ctor"):
+            continue
+        for i in f.rec.get("inits", []):
+            if i.get("expr") is not None and "nodeStructure_" in render(i["expr"]):
+                mm = re.search(r"->second\.(first|second)", render(i["expr"]))
+                if mm:
+                    groups.setdefault(m.group(2), []).append((f, mm.group(1)))
+    n = 0
+    major = {}
+    for kind, lst in sorted(groups.items()):
+        cnt = {}
+        for f, mem in lst:
+            cnt[mem] = cnt.get(mem, 0) + 1
+        best = max(cnt, key=cnt.get)
+        major[kind] = best
+        for f, mem in lst:
+            n += 1
+            con = "iterator-map:%s" % kind.lower()
+            if mem == best:
+                chk.proved("D10", f.key, con, f.loc(), "walks nodeStructure_[n].%s like its %d siblings" % (mem, cnt[best] - 1))
+            elif cnt[best] >= 3:
+                chk.refuted("D10", f.key, con, f.loc(),
+                            "this %s-neighbour iterator walks nodeStructure_[n].%s while its %d siblings (other element kind / constness) walk .%s: it enumerates the relations of the other direction" % (
+                                kind.lower(), mem, cnt[best], best), witness={"history": "a directed graph reached through this overload (e.g. a const reference); compare with get%sEdges" % kind.capitalize()})
+            else:
+                chk.unknown("D10", f.key, con, f.loc(), "siblings disagree without a clear majority: %s" % cnt)
+    if len(major) == 2 and major.get("OUTGOING") == major.get("INCOMING"):
+        f0 = groups["INCOMING"][0][0]
+        chk.refuted("D10", f0.key, "iterator-map:directions", f0.loc(), "outgoing and incoming neighbour iterators walk the same relation map .%s" % major["INCOMING"])
+    chk.floor("D10", "neighbour iterator constructors", n, 8)
+
+
 def run(chk, fb, tier):
     chk.rule("D1", "nodeStructure_[k] / edgeStructure_[k] read as a value is dominated by nodeMustExist_(k) / edgeMustExist_(k) or a checked find of k")
     chk.rule("D2", "link: helper(a,b) always and helper(b,a) under '!directed_'; unlink: the inverse helper with the same two call shapes")
@@ -491,4 +564,8 @@ def run(chk, fb, tier):
     _d7(chk, fb)
     chk.rule("D8", "a relation inserted into the node table with a discarded insert()/emplace() result is preceded by a test that the relation is absent, in the helper or in every caller that also writes the edge table")
     _d8(chk, fb)
+    chk.rule("D9", "an index compared with a container's size() and then used with at()/operator[] on it is compared strictly (index < size)")
+    _d9(chk, fb)
+    chk.rule("D10", "all constructors of the outgoing (incoming) neighbour iterators walk the same relation map of the node, and the two directions different maps")
+    _d10(chk, fb)
     chk.assume("unchecked map::find results on absent ids inside protected GlobalGraph members are undefined behaviour that the installed libstdc++ tolerates (an exception is still raised): not asserted")
